@@ -136,6 +136,12 @@ def make_input(call, ci):
     kind = call.get("input", "list")
     if kind == "list" or kind == "range" and "vals" in call:
         return items
+    if kind == "tuple":          # other finite iterables a caller may pass: a tuple, a plain iterator, a dict's key view
+        return tuple(items)
+    if kind == "iter":
+        return iter(items)
+    if kind == "keys" and "vals" not in call:
+        return dict.fromkeys(items).keys()
     if kind == "range":
         return range(ci * 1000, ci * 1000 + n)
     delays = call.get("delays") or [0]
